@@ -32,13 +32,20 @@ func proofRoot(leafHash types.Hash256, leafIndex uint64, proof []types.Hash256) 
 	return root
 }
 
-func storageProofRoot(leafHash types.Hash256, leafIndex uint64, filesize uint64, proof []types.Hash256) types.Hash256 {
+// storageProofSubtreeHeight returns the height at which the path of the leaf at
+// leafIndex merges with the path of the last leaf of a file of the given size.
+// A valid storage proof has at least that many hashes.
+func storageProofSubtreeHeight(leafIndex uint64, filesize uint64) int {
 	const leafSize = uint64(len(types.V2StorageProof{}.Leaf))
 	lastLeafIndex := filesize / leafSize
 	if filesize%leafSize == 0 {
 		lastLeafIndex--
 	}
-	subtreeHeight := bits.Len64(leafIndex ^ lastLeafIndex)
+	return bits.Len64(leafIndex ^ lastLeafIndex)
+}
+
+func storageProofRoot(leafHash types.Hash256, leafIndex uint64, filesize uint64, proof []types.Hash256) types.Hash256 {
+	subtreeHeight := storageProofSubtreeHeight(leafIndex, filesize)
 	if len(proof) < subtreeHeight {
 		return types.Hash256{} // invalid proof
 	}
